@@ -11,8 +11,8 @@ They are read BY MEANING (extract/probe_c01.py, run in a separate interpreter th
 under test): the values of a probe file are replaced by spies that record the format specification they are printed
 with (whatever way the code spells the formatting), every format string found anywhere in the package is a further
 candidate, and a reading is accepted only if it reproduces `str(atom)` of the unmodified code character by character
-on probe atoms with values of very different lengths. The FVAR chunk is measured, the overrides are resolved along
-the method resolution order. Only if that interpreter cannot be used at all (the package does not import) the
+on probe atoms with values of very different lengths. The FVAR chunk is measured; whether a class computes its text
+is decided on an instance that has only the state every card has. Only if that interpreter cannot be used at all (the package does not import) the
 `ast` pattern matcher below reads the source text, and the tables are reported as lost in any case.
 
 An edited precision, width, chunk size or a new printer override changes the generated Lean file, and the
